@@ -21,7 +21,7 @@ type instCtx struct {
 	must    map[string]bool // when set: only tuples that use at least one of these terms
 }
 
-func sxAtom(s string) *sx { return &sx{atom: s} }
+func sxAtom(s string) *sx  { return &sx{atom: s} }
 func sxList(xs ...*sx) *sx { return &sx{list: xs} }
 
 func isQuant(x *sx) bool {
@@ -195,6 +195,12 @@ func groundIndexTerms(x *sx, bound map[string]bool, out map[string]bool) {
 			if len(s) < 200 {
 				out[s] = true
 			}
+		}
+	}
+	if len(x.list) == 2 && x.list[0].atom == "s.len" && x.list[1].list == nil && strings.Contains(x.list[1].atom, "@loop") {
+		// the length of a slice variable carried by a loop: the position the next append writes
+		if !bound[x.list[1].atom] {
+			out[x.String()] = true
 		}
 	}
 	for _, e := range x.list {
@@ -409,7 +415,14 @@ func (c *Ctx) instantiatedQuery(goalNeg string, extra []string, nAsserts int) (s
 			quantFacts = append(quantFacts, a)
 		}
 	}
+	var keepVerbatim []string
 	for _, a := range append(append(append([]string{}, c.asserts[:nAsserts]...), extra...), quantFacts...) {
+		if strings.HasPrefix(a, "(forall ((") && (strings.Contains(a, ":pattern ((mk$") || strings.Contains(a, ":pattern ((as$")) {
+			// boxing / unboxing round trips of interface values: one variable, a pattern that is a
+			// plain function application -- E-matching instantiates these reliably, keep them as they are
+			keepVerbatim = append(keepVerbatim, a)
+			continue
+		}
 		ps := parseSx(a)
 		if len(ps) != 1 {
 			return "", false
@@ -424,62 +437,81 @@ func (c *Ctx) instantiatedQuery(goalNeg string, extra []string, nAsserts int) (s
 		cands[srt] = append(cands[srt], ks...)
 	}
 	// keys looked up in maps are candidates for variables of the map's key sort
-	mk := map[string]map[string]bool{}
-	groundMapKeys(goal, map[string]bool{}, mk)
-	for _, p := range parsed {
-		groundMapKeys(p, map[string]bool{}, mk)
-	}
-	for base, keys := range mk {
-		srt := ""
-		if base == "$ref" {
-			srt = sortRef
+	harvestKeys := func(list []*sx, onlyWith map[string]bool) {
+		mk := map[string]map[string]bool{}
+		for _, p := range list {
+			groundMapKeys(p, map[string]bool{}, mk)
 		}
-		for _, d := range c.declOrder {
-			// (declare-const MH$5!0 (Array Ref (Array Str Bool)))
-			if strings.HasPrefix(d, "(declare-const MH"+base[1:]+"!") || strings.HasPrefix(d, "(declare-const MH"+base[1:]+"@") {
-				if i := strings.Index(d, "(Array Ref (Array "); i > 0 {
-					rest := d[i+len("(Array Ref (Array "):]
-					if strings.HasPrefix(rest, "(") {
-						dd := 0
-						for j, r := range rest {
-							if r == '(' {
-								dd++
-							} else if r == ')' {
-								dd--
-								if dd == 0 {
-									srt = rest[:j+1]
-									break
+		var bases []string
+		for base := range mk {
+			bases = append(bases, base)
+		}
+		sort.Strings(bases)
+		for _, base := range bases {
+			keys := mk[base]
+			srt := ""
+			if base == "$ref" {
+				srt = sortRef
+			}
+			for _, d := range c.declOrder {
+				// (declare-const MH$5!0 (Array Ref (Array Str Bool)))
+				if strings.HasPrefix(d, "(declare-const MH"+base[1:]+"!") || strings.HasPrefix(d, "(declare-const MH"+base[1:]+"@") {
+					if i := strings.Index(d, "(Array Ref (Array "); i > 0 {
+						rest := d[i+len("(Array Ref (Array "):]
+						if strings.HasPrefix(rest, "(") {
+							dd := 0
+							for j, r := range rest {
+								if r == '(' {
+									dd++
+								} else if r == ')' {
+									dd--
+									if dd == 0 {
+										srt = rest[:j+1]
+										break
+									}
 								}
 							}
+						} else if j := strings.Index(rest, " "); j > 0 {
+							srt = rest[:j]
 						}
-					} else if j := strings.Index(rest, " "); j > 0 {
-						srt = rest[:j]
+					}
+					break
+				}
+			}
+			if srt == "" || srt == sortBV64 {
+				continue
+			}
+			var ks []string
+			for k := range keys {
+				if onlyWith != nil {
+					hit := false
+					for w := range onlyWith {
+						if strings.Contains(k, w) {
+							hit = true
+						}
+					}
+					if !hit {
+						continue
 					}
 				}
-				break
+				ks = append(ks, k)
 			}
-		}
-		if srt == "" || srt == sortBV64 {
-			continue
-		}
-		var ks []string
-		for k := range keys {
-			ks = append(ks, k)
-		}
-		sort.Strings(ks)
-		if len(ks) > 16 {
-			ks = ks[:16]
-		}
-		have := map[string]bool{}
-		for _, k := range cands[srt] {
-			have[k] = true
-		}
-		for _, k := range ks {
-			if !have[k] {
-				cands[srt] = append(cands[srt], k)
+			sort.Strings(ks)
+			if len(ks) > 16 {
+				ks = ks[:16]
+			}
+			have := map[string]bool{}
+			for _, k := range cands[srt] {
+				have[k] = true
+			}
+			for _, k := range ks {
+				if !have[k] {
+					cands[srt] = append(cands[srt], k)
+				}
 			}
 		}
 	}
+	harvestKeys(append([]*sx{goal}, parsed...), nil)
 	var gl []string
 	for g := range ground {
 		gl = append(gl, g)
@@ -495,8 +527,8 @@ func (c *Ctx) instantiatedQuery(goalNeg string, extra []string, nAsserts int) (s
 		}
 		return gl[i] < gl[j]
 	})
-	if len(gl) > 10 {
-		gl = gl[:10]
+	if len(gl) > 12 {
+		gl = gl[:12]
 	}
 	seen := map[string]bool{}
 	for _, k := range cands[sortBV64] {
@@ -511,7 +543,9 @@ func (c *Ctx) instantiatedQuery(goalNeg string, extra []string, nAsserts int) (s
 	// candidates for the goal's universals and for a second round over the assumptions
 	var body strings.Builder
 	budget := 1500
+	var lastInsts []*sx
 	round := func() {
+		lastInsts = nil
 		for _, p := range parsed {
 			if !containsQuant(p) {
 				continue
@@ -520,8 +554,12 @@ func (c *Ctx) instantiatedQuery(goalNeg string, extra []string, nAsserts int) (s
 			if hasOpaque(inst) || containsQuant(inst) {
 				continue // cannot be used: dropping an assumption is sound
 			}
+			lastInsts = append(lastInsts, inst)
 			body.WriteString("(assert " + inst.String() + ")\n")
 		}
+	}
+	for _, a := range keepVerbatim {
+		body.WriteString("(assert " + a + ")\n")
 	}
 	for _, p := range parsed {
 		if !containsQuant(p) {
@@ -532,28 +570,51 @@ func (c *Ctx) instantiatedQuery(goalNeg string, extra []string, nAsserts int) (s
 	for srt, ks := range ic.skolems {
 		known[srt] = len(ks)
 	}
-	round()
-	grew := false
-	must := map[string]bool{}
-	for srt, ks := range ic.skolems {
-		if len(ks) > known[srt] {
-			for _, k := range ks[known[srt]:] {
-				must[k] = true
+	// newSkolems moves the witnesses introduced since the last call into the candidate sets
+	newSkolems := func() map[string]bool {
+		must := map[string]bool{}
+		for srt, ks := range ic.skolems {
+			if len(ks) > known[srt] {
+				for _, k := range ks[known[srt]:] {
+					must[k] = true
+				}
+				cands[srt] = append(cands[srt], ks[known[srt]:]...)
+				known[srt] = len(ks)
 			}
-			cands[srt] = append(cands[srt], ks[known[srt]:]...)
-			grew = true
 		}
+		return must
 	}
-	if grew && len(must) <= 24 {
-		// second round: only instances that use a witness introduced by the first round
+	round()
+	must := newSkolems()
+	// map keys built from the new witnesses (e.g. the id of the j-th key) are candidates too
+	harvestKeys(lastInsts, must)
+	// universals left in the (skolemised, asserted) negated goal are instantiated too: that weakens
+	// the goal side, which is sound for an unsat answer. Existentials inside those instances
+	// introduce witnesses of their own, which later rounds over the assumptions may use.
+	goal0 := goal
+	goalInst := ic.instantiate(goal0, true, cands, &budget)
+	for k := range newSkolems() {
+		must[k] = true
+	}
+	harvestKeys([]*sx{goalInst}, must)
+	for r := 0; r < 2 && len(must) > 0 && len(must) <= 24 && body.Len() < 120000; r++ {
+		// further rounds: only instances that use a witness introduced by the round before
 		budget += 1500
 		ic.must = must
 		round()
 		ic.must = nil
+		must = newSkolems()
+		harvestKeys(lastInsts, must)
+		if len(must) > 0 {
+			budget += 500
+			goalInst = ic.instantiate(goal0, true, cands, &budget)
+			for k := range newSkolems() {
+				must[k] = true
+			}
+			harvestKeys([]*sx{goalInst}, must)
+		}
 	}
-	// universals left in the (skolemised, asserted) negated goal are instantiated too:
-	// that weakens the goal side, which is sound for an unsat answer
-	goal = ic.instantiate(goal, true, cands, &budget)
+	goal = goalInst
 	if hasOpaque(goal) || containsQuant(goal) {
 		return "", false
 	}
